@@ -8,6 +8,7 @@ import (
 	"math"
 	"math/rand"
 	"os"
+	"sort"
 	"strings"
 )
 
@@ -25,13 +26,14 @@ type storeProfile struct {
 	pSaveFault           int // % chance of a SaveChanges fault-path op before the save
 	pSync                int // % chance that a round starts with a MergeDB from a donor store
 	pSyncBack            int // % chance that a round, after deleting/overwriting earlier-round content, moves by MergeDB to a donor built off the state it started from
+	pReads               int // % chance, at each of the points below, of a sweep of point lookups / an iteration THROUGH the trie objects themselves
 	pSnap                int // % chance that a transaction's change set is taken (GetChanges), the transaction writes on, and the earlier set is merged
 }
 
 var (
-	profC03 = storeProfile{name: "c03", minRounds: 1, maxRounds: 3, maxTxns: 4, pDel: 35, pPrune: 10, pCrashSave: 5, pRecreate: 15, pObserve: 60, pFork: 5, pBump: 8, pSync: 6, pSaveFault: 3, pSyncBack: 4, pSnap: 15}
-	profC04 = storeProfile{name: "c04", minRounds: 2, maxRounds: 5, maxTxns: 3, pDel: 35, pPrune: 15, pCrashSave: 40, pRecreate: 20, pObserve: 25, pFork: 8, pBump: 25, pSync: 20, pSaveFault: 25, pSyncBack: 8, pSnap: 5}
-	profC05 = storeProfile{name: "c05", minRounds: 3, maxRounds: 6, maxTxns: 3, pDel: 45, pPrune: 60, pCrashSave: 10, pRecreate: 50, pObserve: 25, pFork: 25, pBump: 8, pSync: 6, pSaveFault: 3, pSyncBack: 20, pSnap: 4}
+	profC03 = storeProfile{name: "c03", minRounds: 1, maxRounds: 3, maxTxns: 4, pDel: 35, pPrune: 10, pCrashSave: 5, pRecreate: 15, pObserve: 60, pFork: 5, pBump: 8, pSync: 6, pSaveFault: 3, pSyncBack: 4, pSnap: 15, pReads: 45}
+	profC04 = storeProfile{name: "c04", minRounds: 2, maxRounds: 5, maxTxns: 3, pDel: 35, pPrune: 15, pCrashSave: 40, pRecreate: 20, pObserve: 25, pFork: 8, pBump: 25, pSync: 20, pSaveFault: 25, pSyncBack: 8, pSnap: 5, pReads: 20}
+	profC05 = storeProfile{name: "c05", minRounds: 3, maxRounds: 6, maxTxns: 3, pDel: 45, pPrune: 60, pCrashSave: 10, pRecreate: 50, pObserve: 25, pFork: 25, pBump: 8, pSync: 6, pSaveFault: 3, pSyncBack: 20, pSnap: 4, pReads: 20}
 )
 
 // genSaveFail switches the generation of `save-fail` ops on (see round()); on since fix 2aff805.
@@ -41,6 +43,7 @@ type gTrie struct {
 	id, parent int
 	content    map[string]string
 	stale      bool
+	noRead     bool // an ancestor was operated on since this trie was opened: its reads go through the ancestor's store and may fail
 }
 
 type storeGen struct {
@@ -159,7 +162,19 @@ func (g *storeGen) mutate(t *gTrie) {
 	g.markStale(t.id)
 }
 
+// touch: trie id was operated on (own op, accepted merge into it, MergeDB, SetVersion): its open descendants are not read
+// through their own objects any more (the root of id may have moved even where the content did not)
+func (g *storeGen) touch(id int) {
+	for _, t := range g.tries {
+		if t.parent == id && t.id != id && !t.noRead {
+			t.noRead = true
+			g.touch(t.id)
+		}
+	}
+}
+
 func (g *storeGen) markStale(parent int) {
+	g.touch(parent)
 	for _, t := range g.tries {
 		if t.parent == parent && t.id != parent && !t.stale {
 			t.stale = true
@@ -223,12 +238,17 @@ func (g *storeGen) mergeFlags(keep bool) string {
 	return fl
 }
 
-func (g *storeGen) merge(t *gTrie) { g.mergeX(t, false) }
+func (g *storeGen) merge(t *gTrie) {
+	g.reads()
+	g.mergeX(t, false)
+	g.reads()
+}
 
 // mergeX: with keep the child stays open after an accepted merge (it goes on and is merged again)
 func (g *storeGen) mergeX(t *gTrie, keep bool) {
 	p := g.tries[t.parent]
 	g.emit("merge %d%s", t.id, g.mergeFlags(keep))
+	g.touch(p.id)
 	if !t.stale {
 		if !storeSameContent(p.content, t.content) {
 			g.markStale(p.id) // the other children of p are stale now
@@ -253,6 +273,7 @@ func (g *storeGen) mergeX(t *gTrie, keep bool) {
 func (g *storeGen) discard(t *gTrie) {
 	g.emit("discard %d", t.id)
 	g.drop(t.id)
+	g.reads()
 }
 
 func (g *storeGen) maybeObserve(id int) {
@@ -307,8 +328,10 @@ func (g *storeGen) versionShape(c *gTrie) {
 				c.content[k] = v
 				kvs = append(kvs, ptok(k)+"="+v)
 			}
+			g.reads()
 			g.emit("syncinto %d %d %s", c.id, w, strings.Join(kvs, ","))
 			g.markStale(c.id)
+			g.reads()
 		}
 	}
 }
@@ -327,7 +350,10 @@ func (g *storeGen) snapMerge(c *gTrie, parentMoves bool) {
 	if parentMoves {
 		g.someOps(p, 2) // the change set is stale now: rejected (a stale trie is not operated on any more)
 	}
+	g.reads()
 	g.emit("mergesnap %d", c.id)
+	g.touch(p.id)
+	c.noRead = true
 	if !c.stale {
 		if !storeSameContent(p.content, at) {
 			g.markStale(p.id)
@@ -408,6 +434,7 @@ func (g *storeGen) syncBack() {
 	} else {
 		w = g.version
 	}
+	g.reads()
 	if target.id == 0 {
 		g.emit("syncfrom %d %s base", w, kvs)
 	} else {
@@ -415,6 +442,7 @@ func (g *storeGen) syncBack() {
 	}
 	target.content = content
 	g.markStale(target.id)
+	g.reads()
 	g.maybeObserve(target.id)
 	if target.id != 0 {
 		g.merge(target)
@@ -436,7 +464,43 @@ func (g *storeGen) bulk(t *gTrie) {
 	g.markStale(t.id)
 }
 
+// reads: point lookups (GetNodeValueRaw / GetNodeValue, present and absent paths) and sometimes an iteration through the
+// trie OBJECTS themselves - every open trie that is not stale (a stale trie's reads may fail, see the assumptions). Emitted
+// before a child is opened / changed and again after merges, MergeDB and discards, so that anything a trie object caches
+// per path (or per node) is exercised across the operations of OTHER tries that change what it must answer.
+func (g *storeGen) reads() {
+	if g.r.Intn(100) >= g.prof.pReads {
+		return
+	}
+	ids := make([]int, 0, len(g.tries))
+	for id, t := range g.tries {
+		if !t.stale && !t.noRead {
+			ids = append(ids, id)
+		}
+	}
+	sort.Ints(ids)
+	for _, id := range ids {
+		if id != 0 && g.r.Intn(2) == 0 {
+			continue
+		}
+		for _, k := range g.keys {
+			if g.r.Intn(100) < 70 {
+				op := "get"
+				if g.r.Intn(3) == 0 {
+					op = "getv"
+				}
+				g.emit("%s %d %s", op, id, ptok(k))
+			}
+		}
+		if g.r.Intn(4) == 0 {
+			g.emit("iter %d", id)
+		}
+	}
+}
+
 func (g *storeGen) txn() {
+	g.reads()
+	defer g.reads()
 	blk := g.tries[0]
 	switch x := g.r.Intn(100); {
 	case x < 50: // one transaction, optionally with a nested one
